@@ -330,7 +330,7 @@ def c03_step(kw):
 
 
 WRAPPERS = ("prune_taxa_with_labels", "retain_taxa", "retain_taxa_with_labels")
-BUDGET = dict(quick=240, thorough=1500)
+BUDGET = dict(quick=240, thorough=1000)
 
 STEP2_OPS = ["reseed_at", "reroot_at_edge", "to_outgroup_position", "prune_subtree", "prune_taxa",
              "collapse_basal_bifurcation", "edge_collapse", "resolve_polytomies",
@@ -390,9 +390,16 @@ def harnesses(tier):
                 if tier == "quick" and n >= 4 and op in WRAPPERS:
                     continue  # thin wrappers of prune_taxa: n <= 3 here, n <= 5 in C08
                 shards.append(dict(op=op, op2="", shape=v, lens_modes=lm))
+    if tier == "quick":
+        # the node-level editing primitives also on three larger shapes (a seed with three children one of which is
+        # internal needs five nodes); every other operation sees these sizes in the thorough tier
+        for v in ([0, 0, 0, 1], [0, 0, 1, 1], [0, 0, 0, 1, 1]):
+            for op in ("remove_child", "add_child", "insert_child", "new_child", "set_child_nodes", "parent_node_setter", "edge_collapse", "prune_subtree"):
+                shards.append(dict(op=op, op2="", shape=v, lens_modes=lm))
     hs = [Harness(
         "c03_step", "C03", c03_step, shards,
-        bounds=dict(nodes="every ordered rooted shape with <= %d nodes incl. unifurcations and polytomies" % nmax,
+        bounds=dict(nodes="every ordered rooted shape with <= %d nodes incl. unifurcations and polytomies" % nmax + (
+                        "; node-level primitives (remove/add/insert/new child, set_child_nodes, parent setter, Edge.collapse, prune_subtree) also on 3 shapes of 5-6 nodes" if tier == "quick" else ""),
                     ops="%d public mutators, one per shard" % len(OPS),
                     lengths="all None / all symbolic ints in [0,1000]" + ("" if tier == "quick" else " / ints with one None (symbolic position)"),
                     taxa="distinct taxa on leaves, optionally one leaf without taxon (symbolic position)",
@@ -405,7 +412,7 @@ def harnesses(tier):
                      "documented errors: ValueError, SeedNodeDeletionException",
                      "add_child/insert_child add fresh nodes (moving a subtree is done with the parent_node setter)"],
         outside=["histories longer than 2", "trees beyond the node bound"],
-        classify=classify)]
+        classify=classify, shard_budget=15.0 if tier == "quick" else None)]
     # depth-2
     n2 = 4 if tier == "quick" else 5
     shards2 = []
